@@ -17,6 +17,7 @@ type ModSet struct {
 	Boxes   []string            // P-heap object ids
 	Ghost   map[string]bool
 	Streams []string // reader ids whose position may advance
+	Outputs []string // writer ids that may receive more bytes
 	All     bool
 }
 
